@@ -367,3 +367,6 @@ def _copy_completeness(ctx, m):
                   f"copy chain {[f.qualname for f in chain]} assigns {sorted(have)} on every path",
                   f"attributes assigned by the constructors but not on every path of copy(): {missing}",
                   chain[0].where)
+
+    # shared with C09.a: every path of projection() returns freshly summed arrays
+    ctx.borrow("C09", ("projection:every-path-sums",), "C12.a")
